@@ -444,7 +444,7 @@ func (g *G) canNewlineLater() bool {
 	return g.noNewline == 0 && g.canNewline() && !g.inBackquote
 }
 
-var hdDelims = []string{"E", "EOF", "END_1", "X9", "E2"}
+var hdDelims = []string{"E", "EOF", "END_1", "X9", "E2", "終", "ÉOF"}
 
 func (g *G) heredoc() {
 	op := "<<"
@@ -454,7 +454,7 @@ func (g *G) heredoc() {
 	delim := g.S.Pick(hdDelims)
 	quoted := false
 	var written string
-	switch g.S.Intn(9) {
+	switch g.S.Intn(10) {
 	case 0, 1, 2:
 		written = delim
 	case 3:
@@ -464,14 +464,24 @@ func (g *G) heredoc() {
 	case 5:
 		written, quoted = "\\"+delim, true
 	case 6:
-		if len(delim) > 1 {
-			written, quoted = delim[:1]+"'"+delim[1:]+"'", true
+		if len([]rune(delim)) > 1 {
+			written, quoted = headRune(delim)+"'"+tailRunes(delim)+"'", true
 		} else {
 			written, quoted = "'"+delim+"'", true
 		}
+	case 9:
+		// a quote character protected by another kind of quoting belongs to the delimiter
+		switch g.S.Intn(3) {
+		case 0:
+			written, delim, quoted = "\""+delim+"'F\"", delim+"'F", true
+		case 1:
+			written, delim, quoted = "'"+delim+"\"b'", delim+"\"b", true
+		default:
+			written, delim, quoted = delim+"\\'s", delim+"'s", true
+		}
 	case 8:
 		// empty quotes are quoting too
-		written, quoted = g.S.Pick([]string{"\"\"" + delim, delim + "\"\"", delim + "''", delim[:1] + "\"\"" + delim[1:]}), true
+		written, quoted = g.S.Pick([]string{"\"\"" + delim, delim + "\"\"", delim + "''", headRune(delim) + "\"\"" + tailRunes(delim)}), true
 	case 7:
 		// an expansion in the delimiter word is taken literally: the delimiter is the text "E$x"
 		delim += g.S.Pick([]string{"$x", "${y}", "$1"})
@@ -521,8 +531,8 @@ func (g *G) hdBody(op, delim string, quoted bool) string {
 		case 4:
 			line = "" // empty line (also as the very first line)
 		case 5:
-			if len(delim) > 1 {
-				line = delim[1:] // suffix of the delimiter
+			if len([]rune(delim)) > 1 {
+				line = tailRunes(delim) // suffix of the delimiter
 			} else {
 				line = delim + delim
 			}
@@ -892,6 +902,7 @@ func (g *G) pipeline() {
 		g.optBlank()
 		g.b.WriteString("|")
 		if g.O.MultiLine && g.canNewline() && !g.pending() && g.S.Chance(1, 6) {
+			g.b.WriteString(g.S.Pick([]string{"", "", " ", "\t"}))
 			g.newline()
 		}
 		g.b.WriteString(" ")
@@ -907,6 +918,7 @@ func (g *G) andOr() {
 			// no blank between the operator and the newline: go.sh rejects "a || <blank><newline>b",
 			// a deviation that belongs to the grammar properties (C02/C09), not to the ones decided here
 			g.b.WriteString(strings.TrimRight(op, " "))
+			g.b.WriteString(g.S.Pick([]string{"", "", " ", "\t", " \t "})) // blanks before the newline are skipped too
 			g.newline()
 		} else {
 			g.b.WriteString(op)
@@ -987,3 +999,6 @@ func (g *G) Stream(n int) []Item {
 	}
 	return items
 }
+
+func headRune(s string) string  { return string([]rune(s)[:1]) }
+func tailRunes(s string) string { return string([]rune(s)[1:]) }
